@@ -13,7 +13,7 @@ namespace Qclib.Gen.Majority
 def operate_sizes (len_controls : Int) : Int × List Int :=
   let size_controls : Int := len_controls
   let n_min : Int := (pyCeilDiv size_controls 2)
-  let n_controls : List Int := ((pyRange n_min (size_controls + 1)).filter (fun (k : Int) => decide ((k = n_min) ∨ ((pyAnd k (k - 1)) = 0))))
+  let n_controls : List Int := ((pyRange n_min (size_controls + 1)).filter (fun (k : Int) => decide (((pyComb (k - 1) (n_min - 1)) % 2) = 1)))
   (n_min, n_controls)
 
 end Qclib.Gen.Majority
